@@ -237,7 +237,8 @@ DOCS_ASSUME = ["documents with exact byte-neighbour ids exist only as read-only 
 
 
 def docs_drive(prop, nq=80, nt=2500):
-    return {"name": "docs", "cmd": "docs", "args": {"n": {"quick": nq, "thorough": nt}},
+    # entries planted into the synthetic neighbour documents only where the property quantifies over them (C16)
+    return {"name": "docs", "cmd": "docs", "args": dict({"n": {"quick": nq, "thorough": nt}}, **({"plant": 1} if prop == "C16" else {})),
             "trace_module": "DocsTrace", "trace_consts": dict(ENTRY, Prop='"%s"' % prop, PeerCap=5), "tv_timeout": 3000}
 
 
